@@ -17,6 +17,7 @@
                                scheduled test uses an unknown fixture *)
 From Coq Require Import List Arith Bool Relations.
 Import ListNotations.
+From LCC Require Import Base.Util Model.Sched Model.Graph Model.TaskSem Model.TaskSemEq Proofs.SchedP Proofs.GreenP.
 From LCC Require Import Model.Proj Model.Fixture Model.Deps Model.Policy Model.Validate
                         Proofs.FixtureP Proofs.DepsP Proofs.ValidateP.
 
@@ -101,6 +102,56 @@ Definition ex_md (v : name) : metadata_map :=
           [([10; 11], mkMeta [(1, 7)] []); ([10; 12], mkMeta [(1, v)] []); ([10; 13], mkMeta [(1, 8)] []); ([10; 20; 21], mkMeta [(1, 7)] [])].
 Definition ex_project (fxs : list fixture) (deps : list path) (setup_args : list name) (v : name) : xproject :=
   mkXProject (mkProject fxs [ex_suite deps setup_args] [ex_suite deps setup_args]) ex_policy (ex_md v).
+
+(* "Any project it accepts, whose user code does not fail, runs to a report in which every test is passed or disabled" — in
+   the run model (Model/Sched.v + Model/TaskSem.v).  User code that does not fail = quiet scripts: no raise, no failed check,
+   no error log, in test bodies, hooks, fixture setups and teardowns and in the threads they start (quiet_project).
+   Layer 3: every task of such a project that is run ends with Success — a test runs its setup_test, fixtures, body,
+   teardowns and ends passed; a disabled test is reported disabled; setups and teardowns succeed — whatever the
+   decision that was taken for the matching setup task. *)
+Theorem C14_green_tasks : forall pr reg force t setup_md o,
+  quiet_project pr reg -> task_sem pr reg force t Run setup_md = Some o -> to_res o = TkSuccess.
+Proof. exact task_sem_green. Qed.
+Print Assumptions C14_green_tasks.
+
+(* Layers 1 + 3: in every run of such a project — every task graph, every thread count n >= 1, every interleaving — in which
+   each finished task has the result layer 3 predicts for the decision it was taken with (l3_consistent: the relation the
+   per-task correspondence checks on every co-simulated run) and nobody presses Ctrl-C (no flag can be raised by quiet code),
+   once the run is over every task has been taken exactly once, was run and not skipped, and ended with Success.
+   (That the graph exists and the run terminates without deadlock for a validated project: C01_validated_project_graph,
+   C01_no_deadlock_for_validated_projects, C01_terminates; that no fixture operation fails: C14_no_structural_failure.) *)
+Theorem C14_green_run : forall pr reg force g n sof ms s,
+  quiet_project pr reg -> 1 <= n ->
+  run g n sof (init g n) ms = Some s -> forallb calm_move ms = true -> l3_consistent pr reg force g ms ->
+  finished g s = true ->
+  forall t, t < length g ->
+    count (is_take t) ms = 1 /\ In (MTake t Run) ms /\ result_of s t = Some ResSuccess.
+Proof. exact quiet_project_all_green. Qed.
+Print Assumptions C14_green_run.
+
+(* the dispatch-loop half on its own: when every finished task succeeded and nothing raised a flag, nothing is ever skipped *)
+Theorem C14_green_dispatch : forall g n sof ms s, 1 <= n -> run g n sof (init g n) ms = Some s -> forallb green_move ms = true ->
+  (forall t md, In (MTake t md) ms -> md = Run) /\ cx s = ctx0 /\ (forall t r, result_of s t = Some r -> r = ResSuccess) /\
+  (forall t, In t (completed s) -> result_of s t = Some ResSuccess).
+Proof. exact green_run. Qed.
+Print Assumptions C14_green_dispatch.
+
+(* non-vacuity: a project with a quiet generator fixture, hooks and a body that logs, checks and starts a thread is quiet, and
+   its test task passes *)
+Example C14_witness_quiet :
+  let fx := mkFixture 20 ScTest [] false false true [ALog 1 1] [ALog 1 2] in
+  let hk := mkHooks None None (Some [ASetStep 3]) (Some [ACheck true 4]) in
+  let t := mkTest 7 false [] [20] [] [ALog 1 5; ASpawn [ACheck true 6]; AJoin; AUse 20] in
+  let pr := mkProject [fx] [Suite 5 false hk [] [t] []] [Suite 5 false hk [] [t] []] in
+  let reg := [(20, fx)] in
+  quiet_project pr reg /\
+  option_map to_res (task_sem pr reg false (mkTask KTest [5; 7] [0] []) Run None) = Some TkSuccess.
+Proof.
+  split; [|vm_compute; reflexivity].
+  apply quiet_registry_project.
+  - intros s [Hs|[]]. subst s. vm_compute. reflexivity.
+  - intros n fx0 H. simpl in H. destruct (Nat.eqb n 20); [|discriminate]. inversion H. vm_compute. reflexivity.
+Qed.
 
 (* an accepted project with all four scopes, a per-thread fixture, dependencies, a policy; its test schedule and dry run *)
 Example C14_witness_accepted :
